@@ -780,6 +780,12 @@ class CompileRun(Harness):
             for k in range(len(specs)):
                 yield dict(t=name, sigil=sig, opt=optimize, spec=k)
 
+    def native_checks(self, case):
+        """phase-1 artefacts of this case that are compared with the native build (for the evidence count)"""
+        if 'sigil' in case and 't' in case:
+            return [('compile', case['t'], case['sigil'], bool(case.get('opt')))]
+        return []
+
     def template(self, case):
         for name, src, specs in TEMPLATES + TEMPLATES_23:
             if name == case['t']:
@@ -900,6 +906,9 @@ class BuildsAgree(CompileRun):
             if name == case['t']:
                 return src.replace('{S}', SIGILS[sig]), bool(optimize), specs[case['spec']]
         raise KeyError(case['t'])
+
+    def native_checks(self, case):
+        return [('compile', case['t'], case[w][0], bool(case[w][1])) for w in ('a', 'b')]
 
     def template(self, case):
         src, _, spec = self.template2(case, 'a')
@@ -1080,6 +1089,21 @@ def spec_from_params(p, top=True):
     return [l, r]
 
 
+def applies_parameter(params, body):
+    """does the body apply one of the parameters as a function, (a PARAM ...)?  Such a function cannot be exercised on
+    plain symbolic data"""
+    names = pattern_names(params)
+
+    def go(f):
+        if f.k != 'cons':
+            return False
+        items, _ = f_items(f)
+        if len(items) == 3 and items[0].k == 'sym' and items[0].a == b'a' and items[1].k == 'sym' and items[1].a in names:
+            return True
+        return go(f.a) or go(f.b)
+    return go(body)
+
+
 class SymbolsDescribe(CompileRun):
     """C13: every symbol-table entry whose key is the tree hash of code in the emitted program names the function that
     code implements: the extracted code, run on symbolic arguments in the program's own constant environment, returns
@@ -1111,7 +1135,7 @@ class SymbolsDescribe(CompileRun):
                 continue
             text = src.replace('{S}', SIGILS[sig])
             for fname, inline, params, body in self.functions_of(text)[1]:
-                if not inline:
+                if not inline and not applies_parameter(params, body):
                     yield dict(t=name, sigil=sig, opt=optimize, fn=fname)
 
     def fn_info(self, case):
@@ -1306,6 +1330,9 @@ class UnusedReallyUnused(CompileRun):
                 for k in range(len(self.SHAPES)):
                     yield dict(t=name, p=p, shape=k)
 
+    def native_checks(self, case):
+        return [('unused-report', case['t']), ('compile', 'unused:' + case['t'], 'cl21', False)]
+
     def tmpl(self, case):
         for name, src, params in UNUSED_TEMPLATES:
             if name == case['t']:
@@ -1455,6 +1482,9 @@ class OutputIndependent(CompileRun):
 
     def inputs_json(self, case, inp, model):
         return dict(policy=ev(model, inp['policy']), advance=bool(ev(model, inp['advance'])))
+
+    def native_checks(self, case):
+        return [('compile-under-policy', case['t'], case['sigil'], case.get('policy'), case.get('advance'))]
 
     def source(self, case):
         for name, src, specs in TEMPLATES + TEMPLATES_23 + TEMPLATES_C05:
